@@ -67,7 +67,31 @@ def build(reg):
           raises={"TypeError": dict(when="not exists(j, 0, len(self._topology_names), self._topology_names[j] == topology)")},
           loops={0: dict(inv={"none_yet": "forall(j, 0, IT, self._topology_names[j] != topology)"})})
     m = reg.module("gcmpy/tools/markov_chain_monte_carlo_rewiring.py")
-    MC = m.cls("MarkovChainMonteCarloRewiring", fields={"_ejks": MAT.ty, "_proposal_edges": ListT(PE.ty)})
+    mnw = reg.module("gcmpy/network/network.py")
+    NET = mnw.cls("Network", fields={"_G": Gt}, properties={"G": "_G"})
+    LoggerT = Elem("Logger")
+    MC = m.cls("MarkovChainMonteCarloRewiring", fields={"_ejks": MAT.ty, "_proposal_edges": ListT(PE.ty), "_network": NET.ty, "_convergence_limit": INT, "_search_limit": INT,
+               "_logger": LoggerT, "_proposal_count": INT, "_proposals_accepted": INT, "_acceptance_ratio": ListT(REAL)})
+    from vf.idioms import params_record
+    PT = params_record(reg, "ToolsNames", {"NETWORK": NET.ty, "EJKS": MAT.ty, "CONVERGENCE_LIMIT": INT, "SEARCH_LIMIT": INT})
+    NE = z3.Function("number_of_edges", Gt.sort(), z3.IntSort()); INC = z3.Function("incident_edges", Gt.sort(), z3.IntSort(), LEdge.sort())
+    g_ = z3.Const("g_", Gt.sort()); x_, q_ = z3.Ints("x_ q_")
+    reg.axioms += [("number_of_edges.nonneg", z3.ForAll([g_], NE(g_) >= 0, patterns=[NE(g_)]), "G.number_of_edges() >= 0"),
+                   ("G.edges(u).incident", z3.ForAll([g_, x_, q_], z3.Implies(z3.And(0 <= q_, q_ < LEdge.len(INC(g_, x_))), z3.Or(Edge.fst(LEdge.at(INC(g_, x_), q_)) == x_, Edge.snd(LEdge.at(INC(g_, x_), q_)) == x_)), patterns=[LEdge.at(INC(g_, x_), q_)]),
+                    "every edge reported by G.edges(u) is incident to u"),
+                   ("G.edges(u).len", z3.ForAll([g_, x_], LEdge.len(INC(g_, x_)) >= 0, patterns=[INC(g_, x_)]), "")]
+    NS["nedges"] = dict(smt=lambda ex, g: Val(INT, NE(g.z)), rt=lambda g: g.number_of_edges())
+    NS["incident"] = dict(smt=lambda ex, g, u: Val(LEdge, INC(g.z, u.z)), rt=lambda g, u: list(g.edges(u)))
+    def hook3(ex, n, st, pc):
+        if isinstance(n, ast.Call) and isinstance(n.func, ast.Name) and n.func.id == "Logger": return Val(LoggerT, z3.Const(f"logger!{uid()}", LoggerT.sort()))
+        if isinstance(n, ast.Call) and isinstance(n.func, ast.Attribute) and n.func.attr in ("number_of_edges", "edges"):
+            try: g = ex.expr(n.func.value, st, list(pc))
+            except Exception: return None
+            if isinstance(g, Val) and g.t == Gt:
+                if n.func.attr == "number_of_edges" and not n.args: ex.assumptions.add("G.number_of_edges() is a non-negative int"); return Val(INT, NE(g.z))
+                if n.func.attr == "edges" and len(n.args) == 1: ex.assumptions.add("G.edges(u) lists the edges incident to u"); return Val(LEdge, INC(g.z, ex.expr(n.args[0], st, pc).z))
+        return None
+    reg.call_hooks.append(hook3)
     ERR = "ErrorMarkovChainMonteCarloRewiring"
     m.fn("MarkovChainMonteCarloRewiring.get_other_vertex", params={"u": INT, "e": Edge}, ret=INT, pure=True,
          ensures={"other": "result == other(u, e)", "member": "e[0] == u or e[1] == u"}, raises={ERR: dict(when="e[0] != u and e[1] != u")})
@@ -79,6 +103,25 @@ def build(reg):
                   "new_edge": "self._proposal_edges[len(self._proposal_edges) - 1]._new_edge == (u0, other(u0, new_edge))",
                   "frame": "self._ejks == old(self._ejks)"},
          raises={ERR: dict(when="new_edge[0] != u0 and new_edge[1] != u0", only=True)})
+    m.fn("MarkovChainMonteCarloRewiring.get_all_edges", params={"G": Gt, "u0": INT, "edge": Edge}, ret=LEdge, pure=True, locals={"es": LEdge},
+         ensures={"oriented_from_the_focal_vertex": "forall(p, 0, len(result), result[p][0] == u0)",
+                  "only_edges_at_u0_with_the_drawn_motif_id": "forall(p, 0, len(result), exists(q, 0, len(incident(G, u0)), emid(G, incident(G, u0)[q]) == emid(G, edge) and result[p] == (u0, other(u0, incident(G, u0)[q]))))",
+                  "all_of_them": "forall(q, 0, len(incident(G, u0)), implies(emid(G, incident(G, u0)[q]) == emid(G, edge), exists(p, 0, len(result), result[p] == (u0, other(u0, incident(G, u0)[q])))))"},
+         raises={ERR: dict(when="False")},
+         loops={0: dict(inv={"from_u0": "forall(p, 0, len(es), es[p][0] == u0)",
+                             "only": "forall(p, 0, len(es), exists(q, 0, IT, emid(G, incident(G, u0)[q]) == emid(G, edge) and es[p] == (u0, other(u0, incident(G, u0)[q]))))",
+                             "all": "forall(q, 0, IT, implies(emid(G, incident(G, u0)[q]) == emid(G, edge), exists(p, 0, len(es), es[p] == (u0, other(u0, incident(G, u0)[q])))))",
+                             "mid": "motif_id == emid(G, edge)"},
+                        end_hints={"keeps_old": "forall(p, 0, len(es_at_head), es[p] == es_at_head[p]) and len(es) >= len(es_at_head)",
+                                   "new_last": "implies(len(es) == len(es_at_head) + 1, es[len(es) - 1] == (u0, other(u0, incident(G, u0)[IT])))"},
+                        head_snap={"es_at_head": "es"})})
+    m.fn("MarkovChainMonteCarloRewiring.__init__", params={"params": PT}, requires={"keys": "params.has_NETWORK and params.has_EJKS", "limit": "implies(params.has_CONVERGENCE_LIMIT, params.CONVERGENCE_LIMIT >= 0)"},
+         ensures={"network": "self._network == params.NETWORK", "target": "self._ejks == params.EJKS",
+                  "convergence_limit_is_a_count": "self._convergence_limit >= 0",
+                  "explicit_limit_respected": "implies(params.has_CONVERGENCE_LIMIT, self._convergence_limit == params.CONVERGENCE_LIMIT)",
+                  "default_limit": "implies(not params.has_CONVERGENCE_LIMIT, self._convergence_limit == 10 * nedges(params.NETWORK._G))",
+                  "search_limit": "self._search_limit == (params.SEARCH_LIMIT if params.has_SEARCH_LIMIT else 25)"},
+         raises={ERR: dict(when="False")})
     m.fn("MarkovChainMonteCarloRewiring.get_hashmap", params={"G": Gt, "es": LEdge}, ret=DictT(Name, LEdge), pure=True,
          ensures={"grouped": "forall_elem(t, Name, implies(t in result, forall(j, 0, len(result[t]), etop(G, result[t][j]) == t)))",
                   "dom": "forall(i, 0, len(es), etop(G, es[i]) in result)"})
@@ -118,22 +161,56 @@ def build(reg):
             "pair.v_side_edge": "forall(i, 0, {n}, self._proposal_edges[2 * i + 1]._new_edge == (v0, other(u0, e0s[i])))",
             "pair.u_side_joins_v_motif": "forall(i, 0, {n}, self._proposal_edges[2 * i]._motif_id == emid(G, pair_e1[i]))",
             "pair.v_side_joins_u_motif": "forall(i, 0, {n}, self._proposal_edges[2 * i + 1]._motif_id == emid(G, e0s[i]))"}
+    TI = "tindex(M._topology_names, etop(G, e0s[n - 1]))"
+    reg.specfun("nprod", [("G", Gt), ("M", MAT.ty), ("e0s", LEdge), ("pair", ArrT(INT, Edge)), ("u0", INT), ("v0", INT), ("n", INT)], REAL, base="1.0",
+                rec=f"nprod(G, M, e0s, pair, u0, v0, n - 1) * (M._ejks[etop(G, e0s[n - 1])][cat(dec(njd(G, u0), {TI}), dec(njd(G, other(v0, pair[n - 1])), {TI}))] * "
+                    f"M._ejks[etop(G, e0s[n - 1])][cat(dec(njd(G, v0), {TI}), dec(njd(G, other(u0, e0s[n - 1])), {TI}))])")
+    K0 = "cat(dec(njd(G, e0s[n - 1][0]), tindex(M._topology_names, etop(G, e0s[n - 1]))), dec(njd(G, e0s[n - 1][1]), tindex(M._topology_names, etop(G, e0s[n - 1]))))"
+    K1 = "cat(dec(njd(G, e1s[n - 1][0]), tindex(M._topology_names, etop(G, e1s[n - 1]))), dec(njd(G, e1s[n - 1][1]), tindex(M._topology_names, etop(G, e1s[n - 1]))))"
+    NS["store"] = dict(smt=lambda ex, a, j, e: Val(a.t, z3.Store(a.z, j.z, e.z)), rt=None)
+    reg.lemma("nprod_ignores_later_partners", vars={"G": Gt, "M": MAT.ty, "e0s": LEdge, "pair": ArrT(INT, Edge), "u0": INT, "v0": INT, "j": INT, "e": Edge, "n": INT}, induct="n",
+              stmt="implies(n <= j, nprod(G, M, e0s, store(pair, j, e), u0, v0, n) == nprod(G, M, e0s, pair, u0, v0, n))", trigger="nprod(G, M, e0s, store(pair, j, e), u0, v0, n)")
+    reg.specfun("dprod", [("G", Gt), ("M", MAT.ty), ("e0s", LEdge), ("e1s", LEdge), ("n", INT)], REAL, base="1.0",
+                rec=f"dprod(G, M, e0s, e1s, n - 1) * (M._ejks[etop(G, e0s[n - 1])][{K0}] * M._ejks[etop(G, e1s[n - 1])][{K1}])")
     m.fn("MarkovChainMonteCarloRewiring.swap_condition", params={"G": Gt, "e0s": LEdge, "e1s": LEdge, "u0": INT, "v0": INT, "pair_e1": ArrT(INT, Edge)}, ret=BOOL,
          ghost=["pair_e1"], locals={},
          requires={"corners_match": "forall(i, 0, len(e0s), exists(j, 0, len(e1s), etop(G, e1s[j]) == etop(G, e0s[i])))",
                    "weights_nonneg": "forall_elem(t, Name, forall_elem(k, Key, implies(t in self._ejks._ejks and k in self._ejks._ejks[t], self._ejks._ejks[t][k] >= 0)))"},
          ensures={"allowed.topology_known": f"implies(result, {P_TOP})", "allowed.pair_in_target": f"implies(result, {P_KEY})",
                   "allowed.weight_positive": f"implies(result, {P_POS})", "target_unchanged": "self._ejks == old(self._ejks)",
+                  "metropolis.numerator_is_the_product_over_proposed_pairings": "implies(result, top == nprod(G, self._ejks, e0s, pair_e1, u0, v0, len(e0s)))",
+                  "metropolis.denominator_is_the_product_over_current_pairings": "implies(result, bottom == dprod(G, self._ejks, e0s, e1s, len(e0s) if len(e0s) <= len(e1s) else len(e1s)))",
+                  "metropolis.accepted_only_if_the_ratio_exceeds_the_draw": "implies(result, RANDOM_DRAW < top / bottom)",
                   **{k: f"implies(result, {v.format(n='len(e0s)')})" for k, v in PAIR.items()}},
          raises={ERR: dict(when="True"), "TypeError": dict(when="True")},
          loops={0: dict(inv={"p_top": P_TOP, "p_key": P_KEY, "p_pos": P_POS, "top": "top > 0", "frame": "self._ejks == old(self._ejks)",
+                             "num": "top == nprod(G, self._ejks, e0s, pair_e1, u0, v0, IT)",
                              "keys": "forall(i, 0, len(e0s), etop(G, e0s[i]) in hashmap_e1s)",
                              **{k: v.format(n="IT") for k, v in PAIR.items()},
                              "hashmap": "forall_elem(t, Name, implies(t in hashmap_e1s, forall(j, 0, len(hashmap_e1s[t]), etop(G, hashmap_e1s[t][j]) == t)))"}),
-                1: dict(snap={"self1": "self"}, inv={"frame": "self == self1"})})
+                1: dict(snap={"self1": "self", "top1": "top"}, inv={"frame": "self == self1 and top == top1", "den": "bottom == dprod(G, self._ejks, e0s, e1s, IT)"})})
     m.fns["MarkovChainMonteCarloRewiring.swap_condition"].loops[0]["ghost_end"] = ["pair_e1[IT] = e1"]
+    def rewire_frame(reg_):
+        d = reg_.find_def("gcmpy/tools/markov_chain_monte_carlo_rewiring.py", "MarkovChainMonteCarloRewiring.rewire"); probs = []
+        first = next((s_ for s_ in d.body if isinstance(s_, (ast.Assign, ast.AnnAssign))), None)
+        if first is None or ast.unparse(first.value).replace(" ", "") != "self._network.G.copy()" or ast.unparse(first.targets[0] if isinstance(first, ast.Assign) else first.target) != "G": probs.append("rewire does not start with G = self._network.G.copy()")
+        for n_ in ast.walk(d):
+            if isinstance(n_, ast.Attribute) and ast.unparse(n_).startswith("self._network") and n_ is not None:
+                pass
+            if isinstance(n_, ast.Call) and isinstance(n_.func, ast.Attribute) and n_.func.attr in ("add_edge", "remove_edge", "add_edges_from", "remove_edges_from", "add_node", "remove_node", "clear") and ast.unparse(n_.func.value) != "G":
+                probs.append(f"graph mutation on {ast.unparse(n_.func.value)}")
+            if isinstance(n_, (ast.Assign, ast.AugAssign)) :
+                for t_ in (n_.targets if isinstance(n_, ast.Assign) else [n_.target]):
+                    if ast.unparse(t_).startswith("self._network"): probs.append(f"assignment to {ast.unparse(t_)}")
+                    if isinstance(t_, ast.Name) and t_.id == "G" and n_ is not first: probs.append("G is re-bound")
+        uses = [ast.unparse(n_) for n_ in ast.walk(d) if isinstance(n_, ast.Attribute) and ast.unparse(n_) == "self._network"]
+        if len(uses) != 1: probs.append(f"self._network is used {len(uses)} times (expected once, for the copy)")
+        ret = [s_ for s_ in ast.walk(d) if isinstance(s_, ast.Return)]
+        if not ret or any(ast.unparse(r.value) != "G" for r in ret): probs.append("rewire does not return the working copy G")
+        return (not probs), "; ".join(probs) or "rewire copies the network once, mutates and returns only the copy"
+    reg.static_checks.append(("MarkovChainMonteCarloRewiring.rewire:static.works_on_a_copy_of_the_network", rewire_frame))
     return ["JointExcessJointDegreeKeysView.get_u0v1", "JointExcessJointDegreeKeysView.get_v0u1", "JointExcessJointDegreeKeysView.get_u0u1",
             "JointExcessJointDegreeKeysView.get_u1u0", "JointExcessJointDegreeKeysView.get_v0v1", "JointExcessJointDegreeKeysView.get_v1v0",
             "JointExcessJointDegreeMatrices.get_topology_index", "MarkovChainMonteCarloRewiring.get_other_vertex",
-            "MarkovChainMonteCarloRewiring.append_proposal_edges", "MarkovChainMonteCarloRewiring.swap_condition",
+            "MarkovChainMonteCarloRewiring.append_proposal_edges", "MarkovChainMonteCarloRewiring.get_all_edges", "MarkovChainMonteCarloRewiring.__init__", "MarkovChainMonteCarloRewiring.swap_condition",
             "MarkovChainMonteCarloRewiring.is_edge_choice_suitable"]
